@@ -119,6 +119,13 @@ CLAIMED = {
         "prints exactly the same text or panics. The full statement is kernel-refuted at a 4-step witness (print, insert before a numbered value, print -> panic), recorded "
         "as a known finding. Tied by random histories replayed on the real API, every print output compared (including the partial renumbering a failed print leaves behind).",
    note="Lean kernel + propext/Quot.sound; M-History hand-written on top of the C08 model; cached Typ/Successors fields not modelled.", technique=T, design="§4 C14"),
+ "C15": dict(
+   text="The operand/successor table of all 54 instruction and 12 terminator types is regenerated on every run (types listed from the source by go/ast; a live instance of each "
+        "analysed by reflection with slots identified by address) and the Lean kernel decides on the complete table that Operands() exposes exactly one live slot per value "
+        "the instruction uses, that Succs() is exactly LLVM's successor list in order, and that it follows retargeting. Dynamic oracle: writing a fresh value through each "
+        "slot of constructor-built instructions changes the printed instruction exactly there. Two defects were repaired by fix commits.",
+   note="Lean kernel (decide +kernel); trusted: table generator (go/ast + reflection analyser), hand-written specSuccs, harness.",
+   technique="Lean 4 kernel decision over a table regenerated from source + differential oracle on the implementation", design="§4 C15"),
 }
 
 def main():
